@@ -325,3 +325,10 @@ def run(ctx):
              "the value built from all bytes of the argument (concrete payload bytes, little endian)")
     from rules import round4
     round4.check_print_arg_width(ctx, "R18.6")
+    ctx.rule("R18.7", "decoding and pairing: the format table of ev_spec.c prints each numeric type with a conversion "
+             "of its own signedness and width; every listed enter / leave pair pushes and pops the same value (C08 R8.2's "
+             "instances: a listed leave event that pops another value is rejected where it is legal)")
+    from rules import round5
+    round5.check_type_formats(ctx, "R18.7")
+    round5.share(ctx, "R18.7", "C08", lambda i_: i_["rule"] == "R8.2" and (":push-pop" in i_["inst"] or "one-enter-one-leave" in i_["inst"]),
+                 "pair:", "a listed event is rejected in a context where it is legal", 100)
